@@ -163,6 +163,10 @@ func sortedTypes(m *openfgav1.AuthorizationModel) *openfgav1.AuthorizationModel 
 // ---- monitor ----
 
 func checkJSONToDSL(run *core.Run, m *openfgav1.AuthorizationModel, how string) {
+	run.Guard(&core.Case{Kind: "model", Model: modelJSON(m), Extra: map[string]string{"how": how}}, func() { checkJSONToDSL1(run, m, how) })
+}
+
+func checkJSONToDSL1(run *core.Run, m *openfgav1.AuthorizationModel, how string) {
 	c := &core.Case{Kind: "model", Model: modelJSON(m), Extra: map[string]string{"how": how}}
 	// per-relation expectation
 	var inexpressible []string
